@@ -36,6 +36,7 @@ def run_mutant(name: str, examples: str = "") -> dict:
             env["RP2V_EVIDENCE_DIR"] = os.path.join(scratch, "evidence")
             env["RP2V_REPLAY_DIR"] = os.path.join(scratch, "replays")
             env["PYTHONDONTWRITEBYTECODE"] = "1"
+            env.setdefault("RP2V_FAST_FAIL", "1")
             start = time.time()
             cmd = [os.path.join(VERIF, "check"), check, "--tier", "quick"]
             if examples:
